@@ -168,3 +168,54 @@ Proof.
     assert (w_cnt (wdecode s) < 32768) by (apply N.mod_lt; discriminate).
     set (r := w_cnt (wdecode s)) in *. unfold max_weak in *. repeat split; lia.
 Qed.
+
+(** ** Field-level corollaries (property C16 for the weak counter) *)
+Lemma gen_wk_max_val : W.MAX = 32767.
+Proof. exact (proj1 gen_wk_max_spec). Qed.
+
+Lemma w_cnt_lt s : w_cnt (wdecode s) < 32768.
+Proof. apply N.mod_lt; discriminate. Qed.
+
+Theorem wk_inc_saturates s : wwf s -> w_cnt (wdecode s) = max_weak ->
+  W.increment_counter s = (s, true).
+Proof.
+  intros Hs E. pose proof (gen_wk_inc_spec s Hs) as H. unfold inc_wk in H.
+  rewrite E, N.eqb_refl in H. exact H.
+Qed.
+
+Theorem wk_inc_increments s : wwf s -> w_cnt (wdecode s) < max_weak ->
+  let s' := fst (W.increment_counter s) in
+  snd (W.increment_counter s) = false /\ w_cnt (wdecode s') = w_cnt (wdecode s) + 1 /\
+  w_acc (wdecode s') = w_acc (wdecode s) /\ wwf s'.
+Proof.
+  intros Hs Hlt. pose proof (gen_wk_inc_spec s Hs) as H. unfold inc_wk in H.
+  replace (w_cnt (wdecode s) =? max_weak) with false in H by (symmetry; apply N.eqb_neq; lia).
+  destruct H as (H1 & H2 & H3). cbv zeta. rewrite H2. cbn [w_cnt w_acc]. repeat split; assumption.
+Qed.
+
+Theorem wk_inc_no_wrap s : wwf s ->
+  let s' := fst (W.increment_counter s) in
+  w_cnt (wdecode s) <= w_cnt (wdecode s') /\ w_cnt (wdecode s') <= max_weak.
+Proof.
+  intros Hs. cbv zeta. pose proof (w_cnt_lt s) as Hlt.
+  destruct (N.eq_dec (w_cnt (wdecode s)) max_weak) as [E|E].
+  - rewrite (wk_inc_saturates s Hs E). cbn [fst]. rewrite E. lia.
+  - assert (Hlt' : w_cnt (wdecode s) < max_weak) by (unfold max_weak in *; lia).
+    destruct (wk_inc_increments s Hs Hlt') as (_ & H & _). cbv zeta in H. rewrite H.
+    unfold max_weak in *. lia.
+Qed.
+
+Theorem wk_dec_zero s : wwf s -> w_cnt (wdecode s) = 0 -> W.decrement_counter s = (s, true).
+Proof.
+  intros Hs E. pose proof (gen_wk_dec_spec s Hs) as H. unfold dec_wk in H. rewrite E in H. exact H.
+Qed.
+
+Theorem wk_dec_decrements s : wwf s -> 0 < w_cnt (wdecode s) ->
+  let s' := fst (W.decrement_counter s) in
+  snd (W.decrement_counter s) = false /\ w_cnt (wdecode s') = w_cnt (wdecode s) - 1 /\
+  w_acc (wdecode s') = w_acc (wdecode s) /\ wwf s'.
+Proof.
+  intros Hs Hpos. pose proof (gen_wk_dec_spec s Hs) as H. unfold dec_wk in H.
+  replace (w_cnt (wdecode s) =? 0) with false in H by (symmetry; apply N.eqb_neq; lia).
+  destruct H as (H1 & H2 & H3). cbv zeta. rewrite H2. cbn [w_cnt w_acc]. repeat split; assumption.
+Qed.
